@@ -188,6 +188,9 @@ func addDep(r *Reg, d DepSpec) {
 	}
 }
 
+// Reaches reports whether registration from depends, directly or indirectly, on registration to.
+func (m *Model) Reaches(from, to int) bool { return from != to && m.reaches(from, to) }
+
 func (m *Model) reaches(from, to int) bool {
 	seen := map[int]bool{}
 	st := []int{from}
